@@ -177,6 +177,12 @@ class Check:
                 json.dump({"property": self.pid, "failing_clause": why, "record": rec,
                            "rejudge": "./check %s --replay %s" % (self.pid, path)}, f, indent=1)
             lines.append("VIOLATION property=%s replay=%s   (%s: %s)" % (self.pid, path, i, why))
+        byclause = {}
+        for i, why, rec in self.fail:
+            k = "%s:%s" % (rec.get("fam", rec.get("kind", "")), why.split(":")[-1])
+            byclause[k] = byclause.get(k, 0) + 1
+        if byclause:
+            lines.append("failing clauses: " + json.dumps(byclause, sort_keys=True))
         if len(self.fail) > 50:
             lines.append("... and %d more failing instances" % (len(self.fail) - 50))
         cov = {
